@@ -148,7 +148,13 @@ def check_cases(ctx, cases):
     ts0 = Timestamp(seconds=0, microseconds=0)
     reqs = []
     post = []
-    for case in cases:
+    from common import local_timezone
+
+    for ci_, case in enumerate(cases):
+        # the process's own timezone must not matter (recorded in the case so that a replay runs under the same one)
+        case.setdefault("tz", (ci_ // 7) % 6)
+        if ci_ % 7 == 0 or len(cases) < 7:
+            ctx.count("local-tz=" + local_timezone(case["tz"]))
         k = case["kind"]
         ctx.count("kind=" + k)
         if k == "offsets":
@@ -283,6 +289,19 @@ def check_cases(ctx, cases):
             #  always False when one of them is an ambiguous wall-clock time, PEP 495)
             if to_pair(back) != (u, off) or back.utcoffset() != dt.utcoffset():
                 ctx.fail(case, "datetime -> model -> datetime is not the identity", "dt-roundtrip", {"back": back.isoformat()})
+            # the same conversion inside a revision, next to an author date that is the same instant
+            # written in another zone: each date keeps its own offset
+            if ci_ % 3 == 0:
+                from swh.model.model import Revision
+
+                other = dt.astimezone(datetime.timezone(datetime.timedelta(minutes=(off + 150) if off < 1200 else (off - 150))))
+                try:
+                    rv = Revision.from_dict({"message": b"m", "author": {"fullname": b"a"}, "committer": {"fullname": b"c"}, "date": other, "committer_date": dt,
+                                             "type": "git", "directory": bytes(20), "synthetic": False, "parents": []})
+                    if rv.committer_date != TimestampWithTimezone.from_datetime(dt) or rv.date == rv.committer_date:
+                        ctx.fail(case, "Revision.from_dict: a committer date that is the same instant as the author date in another zone does not keep its own offset", "revision-dates-aliased", {"committer": rv.committer_date.offset_bytes.decode("latin1"), "want": TimestampWithTimezone.from_datetime(dt).offset_bytes.decode("latin1")})
+                except Exception as e:
+                    ctx.fail(case, f"Revision.from_dict with datetime dates raises {type(e).__name__}", "revision-datetime-dates-raise")
             reqs.append({"op": "from_dt", "u": u, "off": off})
             post.append(("dt", case, (s_, us_, t.offset_bytes, to_pair(back), exp_bytes)))
         elif k == "offbytes":
